@@ -3,6 +3,7 @@ package props
 import (
 	"context"
 	"fmt"
+	"os"
 	"runtime"
 	"strings"
 	"sync"
@@ -30,6 +31,7 @@ var c20Endings = []string{
 	"Close", "CloseNow", "Close-invalid-code", "Close-long-reason", "CloseNow-twice", "Close-then-CloseNow",
 	"peer-close+Close", "peer-close+CloseNow", "protocol-error+Close", "protocol-error+CloseNow",
 	"context-expiry+Close", "context-expiry+CloseNow", "transport-eof+Close", "transport-eof+CloseNow", "transport-reset+CloseNow",
+	"context-expiry+CloseNow/slow-transport-close", "closeread-context-expiry+CloseNow/slow-transport-close", "protocol-error+Close/slow-transport-close",
 	"Close-silent-peer", "concurrent-Close+CloseNow-slow-peer", "concurrent-Close+Close-slow-peer", "netconn-wrong-type+ncClose-slow-peer", "closeread-data+CloseNow",
 }
 
@@ -37,7 +39,7 @@ func init() {
 	fw.Register(&fw.Prop{
 		ID:    "C20",
 		Level: "exploration",
-		Rule: "cases = histories from an operation grammar (reads, writes, streamed writes, pings, CloseRead, NetConn with timers, abandoned half-read readers and unclosed writers, peer pings, cancelled reads) on either role, ended in 20 ways (Close / CloseNow / invalid Close arguments / repeated and concurrent closers against a slow peer / peer close, protocol error, context expiry, transport EOF or reset followed by Close or CloseNow / NetConn policy close). " +
+		Rule: "cases = histories from an operation grammar (reads, writes, streamed writes, pings, CloseRead, NetConn with timers, abandoned half-read readers and unclosed writers, peer pings, cancelled reads) on either role, ended in 23 ways (Close / CloseNow / invalid Close arguments / repeated and concurrent closers against a slow peer / peer close, protocol error, context expiry, transport EOF or reset followed by Close or CloseNow / NetConn policy close). " +
 			"Oracle: once the last Close/CloseNow has returned and the harness has joined its own goroutines, the goroutine profile must contain no goroutine with a frame in, or created by, nhooyr.io/websocket (300 ms grace for goroutines that are unwinding); histories run one at a time per process so a leak is attributed to its history, and the process-wide goroutine count is compared before and after each batch. distinct key = (role, ending, set of operation kinds)",
 		Gen:         c20Gen,
 		Race:        func(t string) bool { return t == "thorough" },
@@ -59,7 +61,7 @@ func c20Gen(tier string, seed int64) []fw.Case {
 	reps := tierPick(tier, 25, 250)
 	for rep := 0; rep < reps; rep++ {
 		for ei, ending := range c20Endings {
-			slow := strings.Contains(ending, "slow-peer") || ending == "Close-silent-peer"
+			slow := strings.Contains(ending, "slow-peer") || ending == "Close-silent-peer" || strings.Contains(ending, "slow-transport-close")
 			if slow && rep%tierPick(tier, 12, 40) != 0 {
 				continue
 			}
@@ -110,10 +112,13 @@ func c20Run(r *fw.R, d c20Desc) {
 	}
 	p := wire.Params{Deflate: d.Deflate}
 	lib2peer := xport.Plan{NoTap: true}
-	c, _, peerEnd, err := libConn(d.Role, p, 0, lib2peer, xport.Plan{NoTap: true})
+	c, libEnd, peerEnd, err := libConn(d.Role, p, 0, lib2peer, xport.Plan{NoTap: true})
 	if err != nil {
 		r.Violate("C20/attach-failed", err.Error(), "")
 		return
+	}
+	if strings.Contains(d.Ending, "slow-transport-close") {
+		libEnd.CloseDelay = 700 * time.Millisecond // closing the transport takes a while, as with TLS
 	}
 	peer := newRawPeer(peerEnd, d.Role, p, d.Seed)
 	peer.AutoPong = true
@@ -269,6 +274,34 @@ func c20Run(r *fw.R, d c20Desc) {
 		}
 		ec()
 		c20Closer(c, d.Ending)
+	case "context-expiry+CloseNow/slow-transport-close":
+		// the timeout watcher tears the connection down (slowly); CloseNow must not return before it is done
+		ectx, ec := context.WithTimeout(base, 5*time.Millisecond)
+		if canRead {
+			c.Read(ectx)
+		} else {
+			peer.AutoPong = false
+			c.Ping(ectx)
+		}
+		ec()
+		c.CloseNow()
+	case "closeread-context-expiry+CloseNow/slow-transport-close":
+		if !closeRead && nc == nil {
+			ectx, ec := context.WithTimeout(base, 5*time.Millisecond)
+			cr := c.CloseRead(ectx)
+			<-cr.Done()
+			ec()
+		}
+		c.CloseNow()
+	case "protocol-error+Close/slow-transport-close":
+		f := wire.Data(wire.OpText, true, []byte("x"))
+		f.Rsv2 = true
+		peer.Send(f)
+		if canRead {
+			go c.Read(ctx) // fails and closes the connection (slowly) from the reader's side
+			time.Sleep(3 * time.Millisecond)
+		}
+		c.Close(websocket.StatusNormalClosure, "")
 	case "transport-eof+Close", "transport-eof+CloseNow":
 		peerEnd.Close()
 		if canRead {
@@ -323,6 +356,32 @@ func c20Run(r *fw.R, d c20Desc) {
 		peer.Send(wire.Data(wire.OpText, true, []byte("unexpected")))
 		time.Sleep(3 * time.Millisecond)
 		c.CloseNow()
+	}
+	// ---- at the instant the (last) closer has returned: a goroutine the library CREATED may be on its way
+	// out (running its deferred functions) but cannot still be parked where it was waiting
+	if !strings.Contains(d.Ending, "concurrent-") && !strings.Contains(d.Ending, "ncClose") {
+		var parked []string
+		for _, g := range libGoroutines() {
+			if !strings.Contains(g, "created by nhooyr.io/websocket") {
+				continue // harness goroutines inside library calls are joined below
+			}
+			if strings.Contains(g, "runtime.gopark") || strings.Contains(g, "[select") || strings.Contains(g, "[chan receive") || strings.Contains(g, "[sleep") || strings.Contains(g, "[IO wait") || strings.Contains(g, "[semacquire") || strings.Contains(g, "[sync.") {
+				parked = append(parked, g)
+			}
+		}
+		// the timeout watcher in particular: once the closer has returned it must have left its select
+		if l := c20SelectLine(); l > 0 {
+			at := fmt.Sprintf("/repo/conn.go:%d ", l)
+			for _, g := range libGoroutines() {
+				if strings.Contains(g, "(*Conn).timeoutLoop(") && strings.Contains(g, at) && !containsStr(parked, g) {
+					parked = append(parked, g)
+				}
+			}
+		}
+		r.Count("profiles_inspected", 1)
+		if len(parked) > 0 {
+			r.Violate("C20/goroutine-not-exited-when-closer-returned/"+d.Ending, fmt.Sprintf("%s ops=%v ending=%s: when the closer returned, %d goroutine(s) started by the library were still waiting (not even woken up)", d.Role, d.Ops, d.Ending, len(parked)), strings.Join(parked, "\n\n"))
+		}
 	}
 	wg.Wait()
 	peerEnd.Close()
@@ -387,4 +446,40 @@ func waitNoLibGoroutinesExcept(d time.Duration, except string) []string {
 		}
 		time.Sleep(2 * time.Millisecond)
 	}
+}
+
+func containsStr(xs []string, x string) bool {
+	for _, y := range xs {
+		if y == x {
+			return true
+		}
+	}
+	return false
+}
+
+var (
+	c20SelOnce sync.Once
+	c20SelLine int
+)
+
+// c20SelectLine finds the line of the select statement of (*Conn).timeoutLoop in /repo/conn.go: a
+// timeout watcher whose frame is at that line has not left (or not even been woken from) its select.
+func c20SelectLine() int {
+	c20SelOnce.Do(func() {
+		b, err := os.ReadFile("/repo/conn.go")
+		if err != nil {
+			return
+		}
+		in := false
+		for i, ln := range strings.Split(string(b), "\n") {
+			if strings.HasPrefix(ln, "func (c *Conn) timeoutLoop()") {
+				in = true
+			}
+			if in && strings.Contains(ln, "select {") {
+				c20SelLine = i + 1
+				return
+			}
+		}
+	})
+	return c20SelLine
 }
